@@ -174,10 +174,12 @@ decrypts under nonce `n`; `tamper_instances`), for every `F ≥ 1` and every env
 1. whatever prefix of the stream is delivered, in any chunking and with any faults of the carrier,
    the reader's output is a prefix of the plaintext of the `j` intact frames — no byte of the tampered
    frame or of any later frame, nothing altered, skipped or repeated — and nothing panics;
-2. if the carrier delivers the tampered stream to its end and closes (`GoodEnv`, `Closes`) and the
-   reader goes on polling with non-empty buffers, the run is **exactly the plaintext of the `j`
-   intact frames followed by an error** (`InvalidData`, or `UnexpectedEof` if the stream was cut):
-   never silence, never later plaintext. -/
+2. if the carrier delivers the tampered stream to its end (`GoodEnv`) and either closes (`Closes`) or
+   the frame announced by the first two bytes of `rest` is completely there (`CompleteAt`: the reader
+   need not wait for more data to judge it — a cut stream on a carrier that stays open is
+   indistinguishable from a slow one), and the reader goes on polling with non-empty buffers, the run
+   is **exactly the plaintext of the `j` intact frames followed by an error** (`InvalidData`, or
+   `UnexpectedEof` if the stream was cut): never silence, never later plaintext. -/
 theorem tamper_detected {C : Type} (w : WireOps C) (F W : Nat) (hF : 1 ≤ F)
     (hl : WireLaws (realParams F W) w) (frames : List Chunk) (hfr : FramesFrom (realParams F W).MAXF 0 frames)
     (j : Nat) (hj : j ≤ frames.length) (rest : List C) (hbad : BadAt w frames j rest)
@@ -186,7 +188,8 @@ theorem tamper_detected {C : Type} (w : WireOps C) (F W : Nat) (hF : 1 ≤ F)
     (delivered es <+: wireOf w (realParams F W).T 0 (frames.take j) ++ rest →
       outBytes (freshRun (realParams F W) w es) <+: List.range (plen (frames.take j)) ∧
       NoPanic (freshRun (realParams F W) w es)) ∧
-    (delivered es = wireOf w (realParams F W).T 0 (frames.take j) ++ rest → GoodEnv es → Closes es →
+    (delivered es = wireOf w (realParams F W).T 0 (frames.take j) ++ rest → GoodEnv es →
+      Closes es ∨ CompleteAt w rest →
       ∀ ks : List Nat, (∀ k ∈ ks, 1 ≤ k) → plen (frames.take j) + scriptLen es + 1 ≤ ks.length →
         ∃ pre e, freshRun (realParams F W) w (es ++ ks.map .poll) = pre ++ [.err e] ∧
           (e = .eof ∨ e = .invalidData) ∧ outBytes pre = List.range (plen (frames.take j))) := by
@@ -228,6 +231,10 @@ example : BadAt (termWire 16) [⟨0, 1⟩, ⟨1, 1⟩] 1 (frameBytes (termWire 1
   BadAt_of_not_prefix _ _ _ _ (by intro ch h; cases h; decide)
 example : BadAt (termWire 16) [⟨0, 1⟩, ⟨1, 1⟩] 0 (frameBytes (termWire 16) 16 1 ⟨1, 1⟩) :=
   BadAt_of_not_prefix _ _ _ _ (by intro ch h; cases h; decide)
+/-- ... and the replayed frame is completely there: the error comes without waiting for `close`. -/
+example : CompleteAt (termWire 16) (frameBytes (termWire 16) 16 0 ⟨0, 1⟩) :=
+  ⟨_, _, _, rfl, by decide, by decide⟩
+example : Closes ([.deliver [.raw 0], .close, .poll 1] : List (REvent TCell)) := trivial
 
 /-- **tamper_instances.** In the term model the integrity hypothesis `Authentic` holds for *every*
 stream all of whose ciphertext cells stem from the writer's frames — i.e. for every result of
